@@ -52,12 +52,12 @@ RULE = ("E2: breadth-first search over ALL operation histories on a real behave.
         "transition is followed by a full drain (leave modes, pop every frame, run the test-run cleanups) compared step "
         "by step with the model. Reserved root names (failed, aborted, config, ...) x 4 stack shapes x 2 modes x 4 "
         "scripts. E3: every placement of <= 3 (thorough 4) cleanup registrations {plain, args, kwargs, generator-fixture "
-        "teardown} x {current frame, layer=each present layer} on 4 stack shapes x EVERY raising subset x {default, "
-        "custom on_cleanup_error}. E1: real ModelRunner runs of a tagged feature + outline + rule program (66-72 "
+        "teardown} x {current frame, layer=each present layer} on 4 stack shapes x EVERY raising subset x {default "
+        "on_cleanup_error; custom one up to 2 (thorough 3) registrations}. E1: real ModelRunner runs of a tagged feature + outline + rule program (66-72 "
         "callbacks: all 12 hook kinds and all steps incl. execute_steps sub-steps) whose callbacks probe every name set "
         "so far, set / shadow / delete attributes and register cleanups (plain, args, layer=, generator fixture), with "
         "every single raising cleanup, every single raising callback (Exception and AssertionError), pairs of raising "
-        "cleanups and raising cleanup x raising callback. A case is non-trivial when its state has a shadowed name or "
+        "cleanups and raising cleanup x raising callback (thorough: all; quick: all singles, fixed slices of the pairs). A case is non-trivial when its state has a shadowed name or "
         ">= 2 cleanups in one frame (E2), a raising cleanup next to a non-raising one in one frame (E3), or at least one "
         "injected fault (E1).")
 ASSUMPTIONS = [
@@ -461,9 +461,10 @@ class Env(object):
             name = type(e).__name__
             if name == "InvalidFixtureError":
                 return ("exc", name, None)
-            for base in ("AttributeError", "LookupError"):
-                if base == name:
-                    return ("exc", name)
+            if isinstance(e, AttributeError):       # subclasses satisfy the documented class
+                return ("exc", "AttributeError")
+            if isinstance(e, LookupError):
+                return ("exc", "LookupError")
             return ("exc", name)
 
     def _apply(self, op):
@@ -1018,11 +1019,12 @@ def reg_options(si):
     return opts
 
 
-def e3_cases(maxn):
+def e3_cases(maxn, custom_upto):
+    """(shape, registrations, number of registrations up to which the custom error handler is run as well)"""
     for n in range(1, maxn + 1):
         for si in range(len(SHAPES)):
             for regs in itertools.product(reg_options(si), repeat=n):
-                yield (si, regs)
+                yield (si, regs, custom_upto)
 
 
 def fx_e3(context, log, raising, i):
@@ -1033,14 +1035,14 @@ def fx_e3(context, log, raising, i):
 
 
 def e3_case(case):
-    """(shape, regs) -> one result per (raising subset, handler); (shape, regs, mask, handler) -> one"""
-    if len(case) == 2:
-        si, regs = case
+    """(shape, regs, custom_upto) -> one result per (raising subset, handler); (shape, regs, mask, handler) -> one"""
+    if len(case) == 3:
+        si, regs, custom_upto = case
         n = len(regs)
         out = []
         with _Quiet():
             for mask in range(1 << n):
-                for handler in (("default", "custom") if n <= 3 else ("default",)):
+                for handler in (("default", "custom") if n <= custom_upto else ("default",)):
                     out.append(_e3_one(si, regs, mask, handler))
         return out
     with _Quiet():
@@ -1058,7 +1060,6 @@ def _e3_one(si, regs, mask, handler):
         def on_err(context, func, exc):
             hlog.append(exc)
         ctx.on_cleanup_error = on_err
-    marks = []
     for d, layer in enumerate(shape):
         if d:
             ctx._push(layer)
@@ -1105,7 +1106,7 @@ def _e3_one(si, regs, mask, handler):
         if ran != want:
             kind = "order" if sorted(ran) == sorted(want) else ("missing" if len(ran) < len(want) or
                                                                  set(want) - set(ran) else "extra")
-            trig = "same-calls"
+            trig = "same-calls" if kind == "order" else "ran-in-another-scope-or-twice"
             if kind == "missing":
                 first_missing = [i for i in want if i not in ran][0]
                 trig = "%s%s" % (regs[first_missing][2],
@@ -1139,7 +1140,7 @@ def _e3_one(si, regs, mask, handler):
     nt = None
     per_frame = [[i for i in e] for e in expected]
     if any(len(e) >= 2 and any(i in raising for i in e) and any(i not in raising for i in e) for e in per_frame):
-        nt = (si, regs, mask)
+        nt = keydigest((si, regs, mask))
     return {"v": v, "dg": obs, "nt": nt, "case": case,
             "out": ("e3", tuple(o[2] for o in obs), len(regs))}
 
@@ -1347,9 +1348,6 @@ def walk_paths(feature, rec):
             scen(item, fpath)
 
 
-_CFG = []
-
-
 def real_run(style, exec_mode, raising, cbfault):
     import logging
     from behave import matchers
@@ -1520,10 +1518,15 @@ def run_case(case):
 
 
 def e1_cases(ncb, quick):
-    """ncb: {(style, exec_mode): number of callbacks of the fault-free run}"""
+    """ncb: {(style, exec_mode): number of callbacks of the fault-free run}.
+    thorough: every single fault, every pair of raising cleanups, every raising cleanup x raising callback.
+    quick: every single fault for exec_mode 'ok' (4 styles), and fixed thin slices of the pairs / products
+    (the quick tier spends its budget on the depth-5 search)"""
     for (style, em), n in sorted(ncb.items()):
         yield (style, em, (), None)
     for (style, em), n in sorted(ncb.items()):
+        if quick and em != "ok":
+            continue
         for k in range(n):
             yield (style, em, (k,), None)
         for k in range(n):
@@ -1532,14 +1535,13 @@ def e1_cases(ncb, quick):
     for (style, em), n in sorted(ncb.items()):
         if quick and (style, em) != (0, "ok"):
             continue
-        for a, b in itertools.combinations(range(n), 2):
+        for a, b in itertools.combinations(range(min(n, 24) if quick else n), 2):
             yield (style, em, (a, b), None)
     for (style, em), n in sorted(ncb.items()):
         if em != "ok" or (quick and style != 1):
             continue
-        step = 3 if quick else 1
-        for k in range(0, n, step):
-            for j in range(n):
+        for k in range(0, n, 6 if quick else 1):
+            for j in range(0, n, 3 if quick else 1):
                 for kind in ("E", "A"):
                     yield (style, em, (k,), (j, kind))
 
@@ -1572,8 +1574,10 @@ def run(ctx):
     ctx.sweep(reserved_case, list(reserved_cases()), chunk=16, name="reserved root names")
     # ---- E3
     maxn = 3 if quick else 4
-    ctx.sweep(e3_case, e3_cases(maxn), chunk=16, name="raising subsets of <= %d registrations" % maxn)
-    bounds["raising_subsets"] = {"registrations": maxn, "stack_shapes": len(SHAPES), "subsets": "all"}
+    custom_upto = 2 if quick else 3
+    ctx.sweep(e3_case, e3_cases(maxn, custom_upto), chunk=16, name="raising subsets of <= %d registrations" % maxn)
+    bounds["raising_subsets"] = {"registrations": maxn, "stack_shapes": len(SHAPES), "subsets": "all",
+                                 "custom_error_handler_up_to": custom_upto}
     # ---- E1
     probe = ctx.sweep(run_case, [(style, em, (), None) for style in (0, 1, 2, 3) for em in ("ok", "fail")],
                       chunk=1, keep=True, name="real runs: fault-free (counting callbacks)")
@@ -1582,7 +1586,8 @@ def run(ctx):
     bounds["real_runs"] = {"callbacks_per_run": {"%d/%s" % k: n for k, n in sorted(ncb.items())},
                            "faults": "every single raising cleanup, every single raising callback (2 kinds), "
                                      "pairs of raising cleanups, raising cleanup x raising callback"
-                                     + (" (quick: subset)" if quick else "")}
+                                     + (" (quick: singles for exec 'ok' only; pairs among the first 24 callbacks of "
+                                        "style 0; every 6th cleanup x every 3rd callback of style 1)" if quick else "")}
     ctx.bounds = bounds
     # ---- vacuity guards
     for f in ("depth3-shadow-delete", "cleanup-runs-after-raising-one", "layer-absent", "layer-outer",
